@@ -23,7 +23,14 @@ C07_OPS = ["bitwise_and", "bitwise_or", "bitwise_xor", "bitwise_andnot", "bitwis
 C03_OPS = ["eq", "neq", "lt", "le", "gt", "ge", "select", "bool_and", "bool_or", "bool_xor", "bool_not", "bool_lnot", "bool_eq", "bool_neq",
            "bool_andnot", "bool_land", "bool_lor"]
 
+C02_OPS = ["add", "sub", "mul", "div", "sqrt", "neg", "abs", "copysign", "bitofsign", "bitwise_and", "bitwise_or", "bitwise_xor",
+           "bitwise_andnot", "bitwise_not", "fma", "fms", "fnma", "fnms", "min", "max", "isnan", "isinf", "isfinite", "is_flint",
+           "is_even", "is_odd", "sign", "signnz"]
+C08_OPS = ["ceil", "floor", "trunc", "round", "nearbyint", "rint"]
+
 PROPS = {
+    "C02": dict(ops=C02_OPS, types=FLOAT_TYPES, design="5.3"),
+    "C08": dict(ops=C08_OPS, types=FLOAT_TYPES, design="5.9"),
     "C01": dict(ops=C01_OPS, types=INT_TYPES, design="5.2"),
     "C07": dict(ops=C07_OPS, types=INT_TYPES, design="5.8"),
     "C03": dict(ops=C03_OPS, types=ALL_TYPES, design="5.4"),
